@@ -1685,8 +1685,10 @@ vbi_export_alloc		(vbi_export *		e,
 		void *data = e->buffer.data;
 		size_t offset = e->buffer.offset;
 
-		/* Let's not waste space. */
-		if (e->buffer.capacity - offset >= 256) {
+		/* Let's not waste space. Note realloc (data, 0) may
+		   free the buffer and return NULL. */
+		if (offset > 0
+		    && e->buffer.capacity - offset >= 256) {
 			data = realloc (data, offset);
 			if (NULL == data)
 				data = e->buffer.data;
